@@ -968,7 +968,7 @@ def r07_9(ctx):
     import r_c04
 
     lib = ctx.lib
-    adt, pos_f, len_f = r_c04.array_buffer_window(lib)
+    adt, pos_f, len_f, cadt = r_c04.array_buffer_window(lib)
     ctx.need(adt is not None and pos_f is not None, "fixed array buffer with an unread window buf[pos..len] not found")
     # what users of the buffer ask about it (`is_empty()`) is answered from the unread window: a yes/no observer
     # called from outside the type reads both ends of buf[pos..len], itself or through the type's own helpers
@@ -977,7 +977,7 @@ def r07_9(ctx):
 
         def walk(x):
             if isinstance(x, dict):
-                if x.get("k") == "field" and x.get("adt") == adt and "name" in x:
+                if x.get("k") == "field" and x.get("adt") == cadt and "name" in x:
                     got.add(x["name"])
                 for v_ in x.values():
                     walk(v_)
@@ -991,7 +991,7 @@ def r07_9(ctx):
             walk({k_: v_ for k_, v_ in t_.items() if k_ in ("args", "discr", "cond", "dest")})
             if t_["k"] == "call" and depth < 2:
                 cb_ = lib.by_id.get((fn_of(t_) or {}).get("resolved") or (fn_of(t_) or {}).get("def"))
-                if cb_ is not None and cb_.raw.get("impl_self_adt") == adt:
+                if cb_ is not None and cb_.raw.get("impl_self_adt") in (adt, cadt):
                     got |= _fields_read(cb_, depth + 1)
         return got
 
